@@ -376,14 +376,16 @@ class Domain(BasicDomain):
         interiors    = [cs(i['name'], **dt['parameters']) for cs,i,dt in zip(constructors, d_interior, dtype)]
         mappings     = [Mapping(I['mapping'], dim=dim) if I.get('mapping', "None") != "None" else None for I in d_interior]
         domains      = [mapping(i) if mapping else i for i,mapping in zip(interiors, mappings)]
-        patch_index  = {I.name:ind for ind,I in enumerate(interiors)}
+        # a patch is identified by its logical name AND its mapping name: the same logical
+        # patch may appear several times under different mappings (F0(A), F1(A), ...)
+        patch_index  = {(I['name'], I.get('mapping', "None")):ind for ind,I in enumerate(d_interior)}
 
         boundaries   = []
         for bd in d_boundary:
             name = bd['patch']
             axis = bd['axis']
             ext  = bd['ext']
-            i    = patch_index[name]
+            i    = patch_index[(name, bd.get('mapping', "None"))]
             bd   = domains[i].get_boundary(axis=int(axis), ext=int(ext))
             boundaries.append(bd)
 
@@ -393,12 +395,12 @@ class Domain(BasicDomain):
             minus_name = minus['patch']
             minus_axis = int(minus['axis'])
             minus_ext  = int(minus['ext'])
-            minus_patch_i = patch_index[minus_name]
+            minus_patch_i = patch_index[(minus_name, minus.get('mapping', "None"))]
 
             plus_name = plus['patch']
             plus_axis = int(plus['axis'])
             plus_ext  = int(plus['ext'])
-            plus_patch_i = patch_index[plus_name]
+            plus_patch_i = patch_index[(plus_name, plus.get('mapping', "None"))]
             interface = ((minus_patch_i, minus_axis, minus_ext),(plus_patch_i, plus_axis, plus_ext))
 
             # optional third entry: orientation of the interface
